@@ -28,7 +28,7 @@ ASSUMPTIONS = [
 
 IMG_SHAPES = [(6, 6, 6), (7, 8, 9), (12, 13, 14)]
 BOXES = [(1, 1, 1), (2, 2, 2), (3, 3, 3), (2, 3, 1)]
-KINDS = ["numpy", "dask:whole", "dask:4,5,3"]
+KINDS = ["numpy", "dask:whole", "dask:4,5,3", "mixed:numpy-first", "mixed:dask-first"]  # mixed: batch loaders holding in-memory and lazy images
 
 
 def AXES(tier):
@@ -79,7 +79,10 @@ def blocksum(a, b):
     return out
 
 
-def _as_array(a, kind):
+def _as_array(a, kind, i=0):
+    if kind.startswith("mixed"):
+        numpy_here = (i == 0) == (kind == "mixed:numpy-first")
+        kind = "numpy" if numpy_here else "dask:4,5,3"
     if kind == "numpy":
         return a
     from dask import array as da
@@ -167,7 +170,7 @@ def run_case(case):
     else:
         ld = BatchLoader(order=order, scale=scale, output_shape=box)
         for i, im in enumerate(imgs):
-            ld.add_tomogram(_as_array(im, case["array"]), mk(i), image_id=i)
+            ld.add_tomogram(_as_array(im, case["array"], i), mk(i), image_id=i)
     before_pos = ld.molecules.pos.copy()
     try:
         lb = ld.binning(b, compute=compute)
@@ -189,7 +192,7 @@ def run_case(case):
         if tuple(im.shape) != ref.shape:
             viol.append((sig("image-shape"), f"binned image shape {tuple(im.shape)}, expected {ref.shape}"))
             continue
-        lazy_in = case["array"] != "numpy"
+        lazy_in = isinstance(_as_array(imgs[i], case["array"], i), da.Array)
         if b > 1:
             is_lazy = isinstance(im, da.Array)
             if lazy_in and is_lazy != (not compute):
